@@ -160,18 +160,18 @@ Proof.
 Qed.
 
 Lemma infer_writes_primary cfg act st ss :
-  s_splitting cfg = true -> has_non_plain ss = true ->
+  s_splitting cfg = true -> override_off st = false -> has_non_plain ss = true ->
   active_role (fst (infer_act cfg act st ss)) = Some Primary.
 Proof.
-  intros Hs Hw. unfold infer_act. rewrite Hs. cbn [negb].
+  intros Hs Ho Hw. unfold infer_act. rewrite Hs, Ho. cbn [negb].
   destruct ss as [|s r]; [discriminate|]. cbn [fst].
   apply loop_write_primary; [|exact Hw].
   intros Hp. rewrite Hp. reflexivity.
 Qed.
 
 Lemma infer_empty cfg act st :
-  s_splitting cfg = true -> infer_act cfg act st [] = (set_role st (Some Primary), true).
-Proof. intros Hs. unfold infer_act. rewrite Hs. reflexivity. Qed.
+  s_splitting cfg = true -> override_off st = false -> infer_act cfg act st [] = (set_role st (Some Primary), true).
+Proof. intros Hs Ho. unfold infer_act. rewrite Hs, Ho. reflexivity. Qed.
 
 (** plain reads, no activity pin *)
 Lemma loop_reads cfg act ss : forall i st,
@@ -189,10 +189,10 @@ Proof.
 Qed.
 
 Lemma infer_reads cfg act st ss :
-  s_splitting cfg = true -> ss <> [] -> is_quiet act -> forallb plain_read ss = true ->
+  s_splitting cfg = true -> override_off st = false -> ss <> [] -> is_quiet act -> forallb plain_read ss = true ->
   active_role (fst (infer_act cfg act st ss)) = (if preads_on cfg st then None else Some Replica).
 Proof.
-  intros Hs Hne [Hi Hh] Hp. unfold infer_act. rewrite Hs, Hi. cbn [negb].
+  intros Hs Ho Hne [Hi Hh] Hp. unfold infer_act. rewrite Hs, Ho, Hi. cbn [negb].
   destruct ss as [|s r]; [congruence|]. cbn [fst].
   rewrite (loop_reads cfg act (s :: r) 0 st Hh Hp). reflexivity.
 Qed.
@@ -214,10 +214,10 @@ Proof.
 Qed.
 
 Lemma infer_recomputed cfg act st st' ss :
-  s_splitting cfg = true -> o_preads st = o_preads st' ->
+  s_splitting cfg = true -> override_off st = false -> override_off st' = false -> o_preads st = o_preads st' ->
   active_role (fst (infer_act cfg act st ss)) = active_role (fst (infer_act cfg act st' ss)).
 Proof.
-  intros Hs Hp. unfold infer_act. rewrite Hs. cbn [negb].
+  intros Hs Ho Ho' Hp. unfold infer_act. rewrite Hs, Ho, Ho'. cbn [negb].
   destruct ss as [|s r]; [reflexivity|]. cbn [fst].
   destruct (a_init act).
   - apply loop_eq_role; [exact Hp|reflexivity].
@@ -230,10 +230,10 @@ Proof.
 Qed.
 
 Lemma infer_pinned cfg act st ss :
-  s_splitting cfg = true -> a_init act = true ->
+  s_splitting cfg = true -> override_off st = false -> a_init act = true ->
   active_role (fst (infer_act cfg act st ss)) = Some Primary.
 Proof.
-  intros Hs Hi. unfold infer_act. rewrite Hs, Hi. cbn [negb].
+  intros Hs Ho Hi. unfold infer_act. rewrite Hs, Ho, Hi. cbn [negb].
   destruct ss as [|s r]; [reflexivity|]. cbn [fst].
   apply loop_primary_sticky; reflexivity.
 Qed.
@@ -259,6 +259,7 @@ Lemma infer_overrides cfg act st ss :
   o_preads (fst (infer_act cfg act st ss)) = o_preads st.
 Proof.
   unfold infer_act. destruct (negb (s_splitting cfg)); [split; reflexivity|].
+  destruct (override_off st); [split; reflexivity|].
   destruct ss as [|s r]; [split; reflexivity|]. cbn [fst].
   destruct (a_init act).
   - apply (loop_overrides cfg act (s :: r) 0 true false (set_role st (Some Primary))).
@@ -283,6 +284,7 @@ Lemma infer_sh_role cfg act auto sho st shard ss :
   fst (fst (infer_sh cfg act auto sho st shard ss)) = fst (infer_act cfg act st ss).
 Proof.
   unfold infer_sh, infer_act. destruct (negb (s_splitting cfg)); [reflexivity|].
+  destruct (override_off st); [reflexivity|].
   destruct ss as [|s r]; [reflexivity|]. cbn [fst]. apply loop_sh_role.
 Qed.
 
@@ -307,20 +309,39 @@ Lemma infer_sh_off cfg act sho st shard ss :
   infer_sh cfg act false sho st shard ss = (fst (infer_act cfg act st ss), shard, snd (infer_act cfg act st ss)).
 Proof.
   unfold infer_sh, infer_act. destruct (negb (s_splitting cfg)); [reflexivity|].
+  destruct (override_off st); [reflexivity|].
   destruct ss as [|s r]; [reflexivity|]. cbn [fst snd].
   rewrite loop_sh_off. cbn [sh_active sh_err]. rewrite loop_sh_role. reflexivity.
 Qed.
 
 (** * client.rs gating *)
 
-Lemma route_parsed_off cfg st p : parser_on cfg st = false -> route_parsed cfg st p = st.
+Lemma parser_on_override cfg st : parser_on cfg st = true -> override_off st = false.
+Proof. unfold parser_on, override_off. destruct (o_parser st) as [[|]|]; intros H; try reflexivity; discriminate. Qed.
+
+Lemma parser_on_parses cfg st : parser_on cfg st = true -> parses_messages cfg st = true.
+Proof. intros H. unfold parses_messages. rewrite H. reflexivity. Qed.
+
+(** the explicit override: whatever is parsed (the pool may run plugins), nothing is inferred *)
+Lemma infer_override_off cfg act st ss : override_off st = true -> fst (infer_act cfg act st ss) = st.
+Proof. intros H. unfold infer_act. destruct (negb (s_splitting cfg)); [reflexivity|]. rewrite H. reflexivity. Qed.
+
+Lemma route_parsed_off cfg st p : override_off st = true -> route_parsed cfg st p = st.
+Proof.
+  intros H. unfold route_parsed. destruct (parses_messages cfg st); [|reflexivity].
+  destruct p as [|act ss]; [reflexivity|]. apply infer_override_off. exact H.
+Qed.
+
+(** not parsed at all (parser off for the session and no plugins): nothing changes either *)
+Lemma route_parsed_unparsed cfg st p : parses_messages cfg st = false -> route_parsed cfg st p = st.
 Proof. intros H. unfold route_parsed. rewrite H. reflexivity. Qed.
 
 Lemma route_parsed_writes cfg st act ss :
   parser_on cfg st = true -> s_splitting cfg = true -> has_non_plain ss = true ->
   active_role (route_parsed cfg st (PAcc act ss)) = Some Primary.
 Proof.
-  intros Hp Hs Hw. unfold route_parsed. rewrite Hp. apply infer_writes_primary; assumption.
+  intros Hp Hs Hw. unfold route_parsed. rewrite (parser_on_parses _ _ Hp).
+  apply infer_writes_primary; [assumption|exact (parser_on_override _ _ Hp)|assumption].
 Qed.
 
 Lemma route_parsed_reads cfg st act ss :
@@ -328,7 +349,8 @@ Lemma route_parsed_reads cfg st act ss :
   forallb plain_read ss = true ->
   active_role (route_parsed cfg st (PAcc act ss)) = (if preads_on cfg st then None else Some Replica).
 Proof.
-  intros Hp Hs Hne Hq Hr. unfold route_parsed. rewrite Hp. apply infer_reads; assumption.
+  intros Hp Hs Hne Hq Hr. unfold route_parsed. rewrite (parser_on_parses _ _ Hp).
+  apply infer_reads; try assumption. exact (parser_on_override _ _ Hp).
 Qed.
 
 Lemma route_parsed_recomputed cfg st st' act ss :
@@ -336,10 +358,11 @@ Lemma route_parsed_recomputed cfg st st' act ss :
   o_preads st = o_preads st' ->
   active_role (route_parsed cfg st (PAcc act ss)) = active_role (route_parsed cfg st' (PAcc act ss)).
 Proof.
-  intros Hp Hp' Hs Ho. unfold route_parsed. rewrite Hp, Hp'. apply infer_recomputed; assumption.
+  intros Hp Hp' Hs Ho. unfold route_parsed. rewrite (parser_on_parses _ _ Hp), (parser_on_parses _ _ Hp').
+  apply infer_recomputed; try assumption; [exact (parser_on_override _ _ Hp)|exact (parser_on_override _ _ Hp')].
 Qed.
 
-Lemma batch_off cfg b : forall st, parser_on cfg st = false -> fold_left (route_bmsg cfg) b st = st.
+Lemma batch_off cfg b : forall st, override_off st = true -> fold_left (route_bmsg cfg) b st = st.
 Proof.
   induction b as [|m r IH]; intros st H; simpl; [reflexivity|].
   destruct m; simpl; try (apply IH; exact H).
@@ -377,7 +400,7 @@ Lemma pinned_step cfg r st it :
   pinned_to r st -> not_set_role it = true -> pinned_to r (client_route cfg st it).
 Proof.
   intros [Hp Hr] Hn.
-  assert (Hoff : parser_on cfg st = false) by (unfold parser_on; rewrite Hp; reflexivity).
+  assert (Hoff : override_off st = true) by (unfold override_off; rewrite Hp; reflexivity).
   destruct it as [c|p|b]; simpl.
   - destruct c as [a|a]; [discriminate|]. destruct a; split; assumption.
   - rewrite route_parsed_off by exact Hoff. split; assumption.
